@@ -21,20 +21,30 @@ def first_gate(t):
 
 
 def arms(t, facts=()):
-    """[(facts, ungated term)] for every consistent resolution of the gates in t."""
+    """[(facts, ungated term)] for every consistent resolution of the gates in t. Gates that occur inside
+    the branch facts themselves (a test on a value that was itself selected by a branch) are resolved
+    jointly, so every returned fact is gate-free."""
     g = first_gate(t)
+    if g is None:
+        for f in facts:
+            g = first_gate(f)
+            if g is not None:
+                break
     if g is None:
         if any(x == ir.RAISES for x in ir.subterms(t)):
             return []               # this resolution of the branches raises: no value
+        fs = set(facts)
+        if any(ir.negate(f) in fs for f in facts):
+            return []
         return [(facts, t)]
     out = []
     for lit, pick in ((g[1], g[2]), (ir.negate(g[1]), g[3])):
         if ir.negate(lit) in facts:
             continue
-        t2 = substitute(t, {g: pick})
-        # the same condition may guard other gates
-        t2 = ir.assume(t2, list(facts) + [lit])
-        out += arms(t2, facts + (lit,))
+        sub = {g: pick}
+        t2 = ir.assume(substitute(t, sub), list(facts) + [lit])
+        facts2 = tuple(ir.assume(substitute(f, sub), [x for x in facts if x != f] + [lit]) for f in facts) + (lit,)
+        out += arms(t2, facts2)
         if len(out) > MAX_ARMS:
             raise OutOfDomain("too many gate arms")
     return out
